@@ -11,7 +11,6 @@ import (
 	"encoding/json"
 	"errors"
 	"fmt"
-	"io"
 	"log"
 	"net"
 	"os"
@@ -143,6 +142,7 @@ var (
 	accuracyToleratedTotal atomic.Int64 // accuracy checks (short RPC timeout) that ended on "alive most of the time" instead of the streak
 	lateStartListening     atomic.Int64 // a monitor closed before/while starting nevertheless came up listening
 	lateStartReturned      atomic.Int64 // ... or its ListenAndServe returned first
+	closeInWindowRuns      atomic.Int64
 	relayStalls            atomic.Int64
 	relayLateReleases      atomic.Int64
 )
@@ -239,8 +239,11 @@ type world struct {
 	history  []string
 	faults   int
 
-	closedEarly bool // Close() ran before ListenAndServe was started
-	closeAtOnce bool // Close() runs right after `go ListenAndServe()`
+	closedEarly   bool // Close() ran before ListenAndServe was started
+	closeAtOnce   bool // Close() runs right after `go ListenAndServe()`
+	closeInWindow bool // Close() runs between ListenAndServe's net.Listen and its first Accept (log gate)
+	monPanic      atomic.Value
+	gateFired     atomic.Bool
 }
 
 type discard struct{ why string }
@@ -261,11 +264,30 @@ func (w *world) startMonitor() {
 		defer func() {
 			if x := recover(); x != nil {
 				monitorCloseRacePanics.Add(1)
+				w.monPanic.Store(fmt.Sprint(x))
 				w.monErr <- fmt.Errorf("ListenAndServe panicked: %v", x)
 			}
 		}()
 		w.monErr <- w.mon.ListenAndServe()
 	}()
+	if w.closeInWindow {
+		// Close() exactly between net.Listen and the first Accept: it ran inside the log gate.  ListenAndServe has to
+		// return (its listener is closed) and must not crash; recovering the panic here stands for the process crash.
+		select {
+		case <-w.monErr:
+		case <-time.After(envCap):
+			w.fail("monitor/listen-and-serve-does-not-return/close-between-listen-and-accept", fmt.Sprintf("ListenAndServe has not returned %v after Close() ran between its net.Listen and its first Accept", envCap))
+		}
+		if p, _ := w.monPanic.Load().(string); p != "" {
+			w.fail("monitor/crash/close-between-listen-and-accept", "Close() between ListenAndServe's net.Listen and its first Accept (the `go mon.ListenAndServe(); ...; mon.Close()` pattern of a short run) makes ListenAndServe panic, which kills the process that hosts the monitor: "+p)
+		}
+		if !w.gateFired.Load() {
+			w.discard("the monitor did not log its start")
+		}
+		closeInWindowRuns.Add(1)
+		w.monUp = true
+		return
+	}
 	if w.closeAtOnce {
 		// `go mon.ListenAndServe()` immediately followed by Close(), as a server that is closed right after creation does
 		_ = w.mon.Close()
@@ -445,6 +467,8 @@ func (w *world) required(i int) (want, cause string) {
 		return "T", "archetype-ended-" + endName[a.endKind]
 	case w.monDown && w.closedEarly:
 		return "T", "monitor-closed-before-serving"
+	case w.monDown && w.closeInWindow:
+		return "T", "monitor-closed-between-listen-and-accept"
 	case w.monDown && w.closeAtOnce:
 		return "T", "monitor-closed-while-starting"
 	case w.monDown:
@@ -817,6 +841,15 @@ func bodyFor(cfgs []config) func(c *explore.Ctx) {
 				case !w.monUp && !w.monDown:
 					evs = append(evs, ev{"M-", w.closeEarly})
 					evs = append(evs, ev{"M+-", func() { w.closeAtOnce = true; w.startMonitor() }})
+					evs = append(evs, ev{"M+|-", func() {
+						w.closeInWindow = true
+						theLogGate.arm(w.addr, func() {
+							_ = w.mon.Close()
+							w.gateFired.Store(true)
+						})
+						w.monDown = true // by the time startMonitor returns
+						w.startMonitor()
+					}})
 				case !w.monUp:
 					evs = append(evs, ev{"M+", w.startMonitor})
 				}
@@ -1141,7 +1174,7 @@ type replay struct {
 }
 
 func TestCheck(t *testing.T) {
-	log.SetOutput(io.Discard)
+	log.SetOutput(theLogGate) // discards everything; lets an execution run code at the monitor's "started listening" log line
 	hres.Main(t, func(env hres.Env) *hres.Result {
 		res := &hres.Result{Property: "C19", Level: "exploration"}
 		res.Assumptions = []string{
@@ -1150,6 +1183,7 @@ func TestCheck(t *testing.T) {
 			"accuracy (alive while running and reachable) is demanded only in configurations with a 5 s RPC timeout; with the 10-40 ms timeouts of the silent-monitor configurations only completeness is demanded",
 			"before the watched archetype has started, and while it runs under a monitor that has not been started yet, the statement requires nothing and nothing is demanded",
 			"relay configurations: the detector reaches the monitor through a harness TCP relay (5-20 ms real latency on answers); stall = answers held until k probes have timed out, release = held answers delivered (before or after the next probe), cut = connections closed; while stalled nothing is demanded, afterwards alive / failed as usual, alive also with the 30 ms RPC timeout (there, if the run of 21 agreeing answers is not reached within the deadline, a detector that answered alive on more than half of its reads passes: late answers legitimately count as failures)",
+			"early-close configurations also contain the order Close() exactly between ListenAndServe's net.Listen and its first Accept (forced through the log output writer at the line \"Monitor: started listening\"): ListenAndServe must return and must not panic (the panic is recovered in the harness goroutine and reported as the process crash it would be), detectors must report failed",
 			"early-close configurations: Monitor.Close() before `go ListenAndServe()`, or right after it without waiting for the listener; the harness then waits until the address accepts a connection or ListenAndServe has returned, accepts both, and demands failed in both",
 			"shared-detector configurations drive the real raftkvs client bootstrap (bootstrap.NewClient, Client.Run, Client.Close) against a monitored archetype; a failure gets one of the keys completeness/shared-detector-closed-by-sibling/raftkvs-client[-created-after] only if the accessor shows the detector was closed when a sibling client ended (harness log) and a control detector built by the same helper does report the failure; otherwise the generic key",
 			"cleanup-gate configurations: the archetype has ended when its last critical section has (signalled from inside the section; for the gated resource additionally: Run has entered the resource's Close); failed is then demanded within the usual 10 s, judged only after the monitor has answered at least 200 polls since the end (counted by a byte relay); the key completeness/end-recorded-only-after-resource-cleanup is used only if at the verdict RunArchetype had not returned, the monitor still recorded alive, and the detector turned to failed once the Close was allowed to finish - otherwise the generic key",
@@ -1338,7 +1372,7 @@ func TestCheck(t *testing.T) {
 			"accuracy_checks_passed_on_majority_alive": accuracyToleratedTotal.Load(),
 			"unconfirmed_candidates":                   unconfirmed(viol),
 			"monitor_close_race_panics_recovered":      monitorCloseRacePanics.Load(),
-			"early_close":                              map[string]any{"late_listener_came_up": lateStartListening.Load(), "listen_and_serve_returned_first": lateStartReturned.Load()},
+			"early_close":                              map[string]any{"late_listener_came_up": lateStartListening.Load(), "listen_and_serve_returned_first": lateStartReturned.Load(), "close_between_listen_and_accept": closeInWindowRuns.Load()},
 			"relay": map[string]any{"stalls": relayStalls.Load(), "releases_after_next_probe": relayLateReleases.Load(), "cuts": relayCuts.Load(),
 				"requests_forwarded": relayRequests.Load(), "answers_forwarded": relayAnswers.Load(), "answers_released_late": relayHeld.Load()},
 			"detector_checks":          checksTotal.Load(),
@@ -1385,4 +1419,36 @@ func sumNonDiscarded(h map[string]int) int {
 		n += c
 	}
 	return n
+}
+
+// logGate is the process-wide log output: it discards everything, but an execution can arm it for its monitor address;
+// the armed function then runs synchronously inside the monitor's log.Printf("Monitor: started listening on <addr>"),
+// i.e. after ListenAndServe's net.Listen and before its first Accept.
+type logGate struct {
+	mu sync.Mutex
+	m  map[string]func()
+}
+
+var theLogGate = &logGate{m: map[string]func(){}}
+
+const logGateMark = "Monitor: started listening on "
+
+func (g *logGate) arm(addr string, f func()) {
+	g.mu.Lock()
+	g.m[addr] = f
+	g.mu.Unlock()
+}
+
+func (g *logGate) Write(p []byte) (int, error) {
+	if i := strings.Index(string(p), logGateMark); i >= 0 {
+		addr := strings.TrimSpace(string(p[i+len(logGateMark):]))
+		g.mu.Lock()
+		f := g.m[addr]
+		delete(g.m, addr)
+		g.mu.Unlock()
+		if f != nil {
+			f()
+		}
+	}
+	return len(p), nil
 }
